@@ -260,19 +260,39 @@ def selection(ctx, ld):
     run.rule('SEL', 'SELECTION: when loading from a data package or from a (descriptor, iterators) pair, descriptors and iterators are '
                     'selected by the same matcher with the same polarity, in the same order; an unselected iterator of a pair is '
                     'still consumed (the pair\'s iterators may share one sequential source)')
-    sp = ld.methods['safe_process_datapackage']
+    sp = ctx.N(ld.methods['safe_process_datapackage'])
     facts = Facts(sp, include_nested=True)
-    # datapackage branch: one loop, both appends under the same match
-    loops = [n for n in ast.walk(sp.node) if isinstance(n, ast.For) and u(n.iter) == 'self.load_dp.resources']
+    # datapackage branch: one loop; on every path through its body both lists are appended to exactly when the matcher
+    # accepts the resource's name
+    from sa.model import norm_compare
+    from sa.paths import Enumerator as _En, path_nodes as _pn
+    loops = [n for n in ast.walk(sp.node) if isinstance(n, ast.For) and u(n.iter) == 'self.load_dp.resources'
+             and isinstance(n.target, ast.Name)]
     ok = len(loops) == 1
     if ok:
         lp = loops[0]
-        conds = [n for n in lp.body if isinstance(n, ast.If)]
-        ok = len(lp.body) == 1 and len(conds) == 1 and u(conds[0].test) == 'resource_matcher.match(%s.name)' % lp.target.id
-        if ok:
-            apps = [u(s.value) for s in conds[0].body if isinstance(s, ast.Expr)]
-            ok = any(a.startswith('self.resource_descriptors.append(%s.descriptor)' % lp.target.id) for a in apps) and \
-                any(a.startswith('self.iterators.append(%s.iter(' % lp.target.id) for a in apps) and not conds[0].orelse
+        v_ = lp.target.id
+        seen_pol = set()
+        for p_ in _En(where=sp.qualname).body_paths(lp):
+            pol_ = None
+            for t, pol in p_.guards():
+                t, pol = norm_compare(t, pol)
+                if match_expr('_m.match(%s.name)' % v_, t) is not None:
+                    pol_ = pol
+                else:
+                    ok = False
+            nodes = list(_pn(p_))
+            d_app = [c for c in nodes if match_expr('self.resource_descriptors.append(%s.descriptor)' % v_, c) is not None]
+            i_app = [c for c in nodes if isinstance(c, ast.Call) and match_expr('self.iterators.append', c.func) is not None
+                     and len(c.args) == 1 and isinstance(c.args[0], ast.Call) and match_expr('%s.iter' % v_, c.args[0].func) is not None]
+            if pol_ is None:
+                ok = False
+            elif pol_:
+                ok = ok and len(d_app) == 1 and len(i_app) == 1
+            else:
+                ok = ok and not d_app and not i_app
+            seen_pol.add(pol_)
+        ok = ok and seen_pol == {True, False}
     run.check(ok, 'SEL', sp.where, sp.qualname, 'datapackage: if match(resource.name): descriptors.append; iterators.append',
               'descriptor and iterator lists of a loaded data package are not filled under the same selection')
     # tuple branch
